@@ -163,7 +163,7 @@ def Sorted : Nat → List (Nat × α) → Prop
 
 instance : (t0 : Nat) → (es : List (Nat × α)) → Decidable (Sorted t0 es)
   | _, [] => inferInstanceAs (Decidable True)
-  | t0, e :: es => @instDecidableAnd _ _ _ (instDecidableSorted e.1 es)
+  | _, e :: es => @instDecidableAnd _ _ _ (instDecidableSorted e.1 es)
 
 /-! ## B. IPManager -/
 
